@@ -211,6 +211,38 @@ CONTRACTS = {
             "heap_same": "forall(lambda e: e.event_type == old(e.event_type), 'OTelEvent')",
         }}},
     },
+    "update_event_types_based_on_children": {
+        "modifies": ["OTelEvent.event_type"],
+        "requires": {
+            # the rename rules do not feed each other: no type that a rule can rewrite, and no type a rule produces, is a listed child type
+            # (otherwise the outcome depends on the order of the spans in the job - observed, see DESIGN I.3)
+            "independent": "all(k2 not in event_types_map_information[k].child_event_types and "
+                           "event_types_map_information[k2].mapped_event_type not in event_types_map_information[k].child_event_types "
+                           "for k in event_types_map_information for k2 in event_types_map_information)",
+            "closed": "all(otel_events_job[k].child_event_ids is None or all(c in otel_events_job for c in otel_events_job[k].child_event_ids) for k in otel_events_job)",
+            "distinct": "all(otel_events_job[k1] is not otel_events_job[k2] for k1 in otel_events_job for k2 in otel_events_job if k1 != k2)",
+        },
+        "ensures": {
+            # "a span is renamed when a listed child type is present" - for every span of the job, in terms of the types before the call
+            "renamed": "all(otel_events_job[k].event_type == ("
+                       "event_types_map_information[old(otel_events_job[k].event_type)].mapped_event_type "
+                       "if old(otel_events_job[k].event_type) in event_types_map_information and otel_events_job[k].child_event_ids is not None "
+                       "and old(listed_child(otel_events_job, otel_events_job[k].child_event_ids, "
+                       "event_types_map_information[otel_events_job[k].event_type].child_event_types)) "
+                       "else old(otel_events_job[k].event_type)) for k in otel_events_job)",
+        },
+        "loops": {0: {"index": "i", "invariant": {
+            "done": "all(otel_events_job[list(otel_events_job)[p]].event_type == ("
+                    "event_types_map_information[old(otel_events_job[list(otel_events_job)[p]].event_type)].mapped_event_type "
+                    "if old(otel_events_job[list(otel_events_job)[p]].event_type) in event_types_map_information "
+                    "and otel_events_job[list(otel_events_job)[p]].child_event_ids is not None "
+                    "and old(listed_child(otel_events_job, otel_events_job[list(otel_events_job)[p]].child_event_ids, "
+                    "event_types_map_information[otel_events_job[list(otel_events_job)[p]].event_type].child_event_types)) "
+                    "else old(otel_events_job[list(otel_events_job)[p]].event_type)) for p in range(i))",
+            "todo": "all(otel_events_job[list(otel_events_job)[p]].event_type == old(otel_events_job[list(otel_events_job)[p]].event_type) "
+                    "for p in range(i, len(otel_events_job)))",
+        }}},
+    },
     "convert_otel_event_stream_to_event_id_to_otelevent_map": {
         "raises": {"OTelTreeDisconnectedError":
                    "any(otel_event_stream[p].parent_event_id is not None and not any(otel_event_stream[q].event_id == otel_event_stream[p].parent_event_id "
@@ -336,7 +368,7 @@ LEMMA_MAXEND_APP = {
 
 ORDER = ["order_groups_by_start_timestamp", LEMMA_MAXEND_UPPER, LEMMA_MAXEND_ATTAINED, LEMMA_MAXEND_APP,
          "sequence_groups_of_otel_events_asynchronously", "group_events_using_async_information", "get_root_event_from_event_id_to_event_map",
-         "update_event_type_based_on_children", "unix_nano_to_pv_string", "sequence_otel_event_ancestors", "sequence_otel_event_job",
+         "update_event_type_based_on_children", "update_event_types_based_on_children", "unix_nano_to_pv_string", "sequence_otel_event_ancestors", "sequence_otel_event_job",
          "convert_otel_event_stream_to_event_id_to_otelevent_map"]
 
 
@@ -586,6 +618,28 @@ def _gen_rename(nat, rng, n):
         yield {"otel_event": evs["e0"], "otel_events_job": evs, "event_type_map_information": info}
 
 
+def _gen_rename_all(nat, rng, n):
+    _, OTelEventTypeMap = _types(nat)
+    shapes = list(trees(nat, 5))
+    for _ in range(n):
+        k, par, kids = rng.choice(shapes)
+        times = [(i, i + 1) for i in range(k)]
+        types = [rng.choice(["A", "B", "C", "X", "Y"]) for _ in range(k)]
+        order = list(range(k))
+        rng.shuffle(order)
+        job = _job_from(nat, k, par, kids, times, types, order)
+        if rng.random() < 0.2:
+            job[f"s{rng.randrange(k)}"].child_event_ids = None
+        infos = {}
+        if rng.random() < 0.8:
+            infos["A"] = OTelEventTypeMap(mapped_event_type="MA", child_event_types={"X"} if rng.random() < 0.7 else {"X", "Y"})
+        if rng.random() < 0.6:
+            infos["B"] = OTelEventTypeMap(mapped_event_type="MB", child_event_types={"Y", "C"})
+        if rng.random() < 0.15:   # interacting rules: outside the precondition (skipped, counted as such)
+            infos["X"] = OTelEventTypeMap(mapped_event_type="A", child_event_types={"C"})
+        yield {"otel_events_job": job, "event_types_map_information": infos}
+
+
 def _gen_stream(nat, rng, n):
     for _ in range(n):
         k = rng.randrange(0, 6)
@@ -681,6 +735,7 @@ GEN = {
     "group_events_using_async_information": _gen_group_events,
     "get_root_event_from_event_id_to_event_map": _gen_root,
     "update_event_type_based_on_children": _gen_rename,
+    "update_event_types_based_on_children": _gen_rename_all,
     "convert_otel_event_stream_to_event_id_to_otelevent_map": _gen_stream,
     "sequence_otel_event_job": _gen_job,
     "sequence_otel_event_ancestors": _gen_ancestors,
